@@ -172,7 +172,7 @@ def pattern_block(pattern: Any, n: int) -> tuple[bytearray, bool]:
     if pattern == "ones":
         return bytearray(b"\xff" * n), True
     if pattern == "inc":
-        return bytearray((i & 0xFF) for i in range(n)), True
+        return bytearray((bytes(range(256)) * (n // 256 + 1))[:n]), True
     if pattern == "rand":
         return bytearray(n), False
     unit = pattern_unit(pattern)
@@ -276,6 +276,22 @@ def child_extents(n: dict, base: Optional[int] = None, path: tuple = ()) -> list
     for i, c in enumerate(n.get("children", ())):
         out.extend(child_extents(c, base + c["offset"], path + (i,)))
     return out
+
+
+def prune_zero_length(n: dict) -> tuple[dict, bool]:
+    """Drop zero-length sub-images (they own no byte).  -> (tree, influence): ``influence`` is True when a dropped
+    image determined some ancestor's derived length, i.e. when the tree cannot be judged without giving
+    zero-length images a meaning."""
+    flag = [False]
+
+    def rec(m: dict) -> dict:
+        kids = [rec(c) for c in m.get("children", ()) if length(c) != 0]
+        new = dict(m, children=kids)
+        if length(new) != length(m):
+            flag[0] = True
+        return new
+
+    return rec(n), flag[0]
 
 
 def has_rand(n: dict) -> bool:
@@ -471,13 +487,21 @@ def segments_of(mem: dict[int, int]) -> list[tuple[int, bytes]]:
 
 
 def looks_like_text_format(blob: bytes) -> bool:
-    """A BIN payload that a format auto-detector may legitimately take for a text format (or ELF):
-    excluded from the judged BIN round trips (the ambiguity is inherent, not a defect)."""
-    if blob[:4] == b"\x7fELF":
+    """A BIN payload that a format auto-detector may legitimately take for a text format (or ELF): excluded from
+    the judged BIN loads (the ambiguity is inherent, not a defect).  Deliberately generous: anything that decodes
+    as text and is blank, printable ASCII, or starts like a HEX / S-record / TI-TXT / VMEM record."""
+    if blob[:4] == b"\x7fELF" or not blob:
         return True
-    if not blob:
+    try:
+        text = blob.decode("utf-8")
+    except UnicodeDecodeError:
+        return False
+    stripped = text.strip()
+    if not stripped:
+        return True  # only characters str.strip() regards as white space (\t \n \v \f \r \x1c..\x1f, space, NEL ...)
+    if stripped[0] in ":S@q/":
         return True
-    return all(b in (9, 10, 13) or 32 <= b < 127 for b in blob)
+    return all(32 <= ord(ch) < 127 or ch.isspace() for ch in text)
 
 
 # --------------------------------------------------------------------------------------------
@@ -565,6 +589,9 @@ def selftest(repo_root: Optional[str] = None) -> dict:
     mem, start, info = parse_srec(write_srec([(0x10, b"abc"), (0xFF00, b"xyz")], start=0x20, width=16))
     assert segments_of(mem) == [(0x10, b"abc"), (0xFF00, b"xyz")] and start == 0x20 and info["types"] == ["S0", "S1", "S9"]
     n_ok += 3
+    assert looks_like_text_format(b"\n") and looks_like_text_format(b"\x1c ") and looks_like_text_format(b"q") and looks_like_text_format(b":00")
+    assert not looks_like_text_format(b"\x00") and not looks_like_text_format(b"\xff\n") and not looks_like_text_format(b"\x01abc")
+    n_ok += 1
     # --- third-party files shipped with the repository's tests (compiler / objcopy output) -----------
     files = {}
     if repo_root:
